@@ -192,7 +192,7 @@ PROPS = {
         "thorough_seeds": 3,
         "rule": "chain R->a->b->c plus d under a (inner edge sometimes tombstoned), then 2-6 of: self edge, root tombstone (values 1, 2, 0.5; parent '' or root), NaN hidden inside an otherwise good "
                 "node-point or edge-point batch, cycle-closing edges (a under c/b/d, R under c/d, b under c), new edge without node type, legal mirrors, good follow-up writes; "
-                "oracle = every must-refuse request is refused, the final rows equal what the accepted requests alone produce, hashes consistent; distinct = distinct case line",
+                "oracle = every must-refuse request is refused, the final rows equal what the accepted requests alone produce, hashes consistent; distinct = distinct case line; every fifth case runs over the bus with a subscription to up.> (reply of every request, everything rebroadcast for the final, mostly refusable, write); every tenth performs one move or mirror through client.MoveNode / client.MirrorNode (below the node itself or a descendant: must be refused, rebroadcast nothing, leave the edges as they were; or legal)",
         "trusted": ["modernc SQLite: row storage fidelity (TEXT/BLOB/INT/REAL), atomic commit, rollback (parameter; every case runs on a real database file)", "hash/crc32 IEEE table implementation (modelled bit-serially; equality exercised through the stored hashes of every case)"],
         "modelled": ["store/sqlite.go nodePoints, edgePoints, updateHash/updateHashHelper/updateHashEdge, isAncestor, normalizePoints and data.Points.Collapse, data.Point.CRC, data.NodeEdge.CalcHash modelled by hand (Siot/Model/Store.lean, Crc32.lean)", "time.Now() for zero timestamps is not modelled (generated points carry explicit non-zero times)", "the model's upstream walks use fuel 2^|edges|, proved never to be exhausted on reachable (acyclic) states; the Go recursion has no bound", "bus level (reply text, up.* stream, follow-up latency) is covered by the handler facts gen_facts_pinned and, when the bus harness is available, by C06/C08 runs"],
         "assumptions": [],
@@ -285,7 +285,7 @@ PROPS = {
                 "configuration updates, and 'w' steps that let the manager settle; often all placements or all containers are deleted at the end. Two labels: S = settled histories (a 'w' before every "
                 "operation that relies on a client's subscription: child add/remove, updates), X = racing histories (no such waits). At the end a scan is forced (a node-type point below the root), the "
                 "manager settles (bounded wait, subscriptions probed), then: clients inside Run per placement with their children and folded-config-vs-store, overlaps ever seen, Stop returned, clients left. "
-                "Oracle = fixpoint closure from the root through non-deleted group/vparent children; one client each; children current; no overlap; Stop returns with nothing left; distinct = distinct case line",
+                "Oracle = fixpoint closure from the root through non-deleted group/vparent children; one client each; children current; no overlap; Stop returns with nothing left; distinct = distinct case line In one case out of four the instrumented clients take 40 ms to leave Run after Stop (label L): a manager that does not wait for them shows as an overlap or as clients left after Stop.",
         "trusted": ["Go scheduler / channel semantics of the manager's select loop (the LTS abstracts them into atomic events)", "embedded nats-server / nats.go", "modernc SQLite as in C05"],
         "modelled": ["client/manager.go scanHelper (which placements are wanted) on the store model, and the bookkeeping of scan / stop / exit / Stop as a labelled transition system (Siot/Model/Manager.lean); shape re-extracted every run (gen_manager_pinned)",
                      "timing is not modelled: 'once node changes quiesce' is rendered as: one scan after the last change, then the exits of the clients told to stop; the 5 s guards (client that ignores Stop, shutdown timer) and the 1-minute rescan are outside the model (the harness forces a scan)",
